@@ -12,12 +12,14 @@ from __future__ import annotations
 from typing import Any
 
 from vlib import core, sers, streamdrive as sd
+from vlib import jraw  # ---- raw JSON framer ----
 
 ID = "C01"
 CLAIMED = True
 TITLE = "Stream round-trip under any chunking"
 REQUIRED_THEOREMS = ["C01_sep_copy_roundtrip", "C01_sep_buffered_roundtrip", "C01_sep_buffered_room",
-                     "C01_fixed_copy_roundtrip", "C01_fixed_buffered_roundtrip", "C01_sep_producer_roundtrip"]
+                     "C01_fixed_copy_roundtrip", "C01_fixed_buffered_roundtrip", "C01_sep_producer_roundtrip",
+                     "C01_jraw_roundtrip"]  # ---- raw JSON framer ----
 LEVEL_TEXT = (
     "Machine-checked proof (Lean 4) that the modelled consumers and framers deliver exactly the sent frames for "
     "every packet list and every chunking / fill-size sequence, plus a differential correspondence check of the "
@@ -26,7 +28,8 @@ LEVEL_TEXT = (
 LEVEL_NOTE = (
     "Trusted: Lean kernel; axioms propext, Quot.sound, Classical.choice only; the hand-written model is tied to the "
     "code by the correspondence check only (sampled); payload codecs (str, json, struct, base64, zlib, bz2, pickle) "
-    "are parameters of the theorems and exercised, not modelled; JSON raw / file-based / compressor framers: see evidence."
+    "are parameters of the theorems and exercised, not modelled; raw JSON: model JRaw + C01_jraw_roundtrip (docs/JRAW.md); "
+    "file-based / compressor framers: see evidence."
 )
 TECHNIQUE = "Lean 4 theorems (induction over chunk lists, refinement to a byte-level spec) + model/code differential correspondence + round-trip oracle"
 TRUSTED_BASE = [
@@ -58,6 +61,13 @@ def _stream(case: dict) -> tuple[list[Any], list[bytes]]:
 def _run_producer(case: dict) -> list[str]:
     ser = sers.build(case["spec"])
     out = []
+    if case["spec"]["k"] == "json":  # ---- raw JSON framer ---- producer: encoded text (real one-shot) -> emitted chunk
+        texts = []
+        for v in case["datas"]:
+            texts.append(ser.serialize(sers.dec_val(v)))
+            out.append("chunk " + core.hexs(b"".join(ser.incremental_serialize(sers.dec_val(v)))))
+        _aux[core.case_digest(case)] = {"texts": texts}
+        return out
     for h in case["datas"]:
         try:
             chunks = list(ser.incremental_serialize(bytes.fromhex(h)))
@@ -92,6 +102,12 @@ def run_real(case: dict) -> list[str]:
 
 
 def model_input(case: dict, real: list[str]):
+    if case.get("kind") == "producer" and case["spec"]["k"] == "json":  # ---- raw JSON framer ----
+        aux = _aux.get(core.case_digest(case))
+        if aux is None:
+            return None
+        sers.MODEL_RUNS["jrawprod"] = sers.MODEL_RUNS.get("jrawprod", 0) + 1
+        return "jrawprod", [f"ser {core.hexs(t)}" for t in aux["texts"]]
     if case.get("kind") == "producer":
         return f"prod {case['spec']['sep']}", [f"ser {h or '-'}" for h in case["datas"]]
     head = sers.model_head(case["spec"], case["path"], case.get("hint", 0))
@@ -112,6 +128,16 @@ def model_post(case: dict, lines: list[str]) -> list[str]:
 
 
 def oracle(case: dict, real: list[str]) -> str | None:
+    if case.get("kind") == "producer" and case["spec"]["k"] == "json":  # ---- raw JSON framer ----
+        # the emitted chunk is the text, plus a newline iff the text does not start with { [ "
+        import json as _json
+        for v, ln in zip(case["datas"], real):
+            if not ln.startswith("chunk "):
+                return ln
+            b = bytes.fromhex(ln.split()[1])
+            if _json.loads(b) != sers.dec_val(v) or (b[:1] not in (b"{", b"[", b'"')) != b.endswith(b"\n"):
+                return f"producer emitted {b!r} for {sers.dec_val(v)!r}"
+        return None
     if case.get("kind") == "producer":
         # whatever the producer emits must be cut out by the receiver as exactly one frame holding the stripped data
         sep = bytes.fromhex(case["spec"]["sep"])
@@ -205,6 +231,11 @@ def corpus() -> list[dict]:
                       "packets": [sers.enc_val(b"12345"), sers.enc_val(b"abcde")], "cuts": [3, 3, 1], "hint": 2, "conv": False})
     cases.append({"spec": {"k": "json", "use_lines": False, "limit": 64}, "path": "copy",
                   "packets": [sers.enc_val({"a": "}\""}), sers.enc_val(12), sers.enc_val([1, [2]])], "cuts": [1], "hint": 1, "conv": False})
+    # ---- raw JSON framer ---- backslash runs before quotes cut at every position; texts exactly at the limit
+    pk = [sers.enc_val("a\\\\\"}]\\"), sers.enc_val([]), sers.enc_val(None), sers.enc_val({"\\": "\"", "k": [[], {}]}), sers.enc_val(-12.5)]
+    for i in range(1, 55):
+        cases.append({"spec": {"k": "json", "use_lines": False, "limit": 23}, "path": "copy", "packets": pk, "cuts": [i, 100], "hint": 1, "conv": False})
+    # ---- end raw JSON framer ----
     return cases
 
 
@@ -257,12 +288,36 @@ def generate(rng, tier: str, boost: int):
             cuts = [min(c, max(1, lim // 2)) for c in cuts]
         yield {"spec": spec, "path": path, "packets": [sers.enc_val(p) for p in packets], "cuts": cuts,
                "hint": hint, "conv": rng.random() < 0.25}
+    # ---- raw JSON framer ---- producer tie: Lean `JRaw.produce` vs the real incremental_serialize
+    for _ in range((150 if tier == "quick" else 3000) * boost):
+        yield {"kind": "producer", "spec": {"k": "json", "use_lines": False, "limit": 65536},
+               "datas": [sers.enc_val(jraw.gen_value(rng)) for _ in range(rng.randint(1, 5))]}
+    # ---- raw JSON framer ---- rich documents, limit in the band of the longest text, one cut at every position
+    for _ in range((700 if tier == "quick" else 20000) * boost):
+        packets = [jraw.gen_value(rng) for _ in range(rng.randint(1, 5))]
+        frames = sd.produce({"k": "json", "use_lines": False, "limit": 65536}, packets)
+        big = max(len(f) - (1 if f.endswith(b"\n") else 0) for f in frames)   # |text| (a plain value's newline is not counted)
+        lim = max(big, rng.choice([big, big, big + 1, big + 5, 64, 65536]))
+        total = sum(len(f) for f in frames) + len(frames[-1])
+        r = rng.random()
+        if r < 0.3:
+            cuts = [1]
+        elif r < 0.65:
+            cuts = [rng.randint(1, max(1, total - 1)), total]
+        else:
+            cuts = [rng.choice([0, 1, 1, 2, 3, 5, 8, 13, 40]) for _ in range(rng.randint(1, 12))] + [1]
+        yield {"spec": {"k": "json", "use_lines": False, "limit": lim}, "path": "copy", "packets": [sers.enc_val(p) for p in packets],
+               "cuts": cuts, "hint": 1, "conv": rng.random() < 0.1}
+    # ---- end raw JSON framer ----
 
 
 def extra_coverage(stats) -> dict:
     return {"serializer_models": "separator framers (line, json lines, base64, AutoSeparated subclass) and fixed-size "
             "framers (struct, named-tuple struct, FixedSize subclass) are compared with the Lean model; raw JSON, "
-            "file-based, zlib/bz2 wrappers are run against the oracle only in this check"}
+            "file-based, zlib/bz2 wrappers are run against the oracle only in this check",
+            # ---- raw JSON framer ----
+            "raw_json": "raw JSON (use_lines=False) is compared with the Lean model JRaw (endriver `jraw <limit>`) on the copy path",
+            "model_runs_by_framer": dict(sorted(sers.MODEL_RUNS.items()))}
 
 
 def after_batch() -> None:
